@@ -254,3 +254,39 @@ package task
 //@   on call (*Manager).updateTaskState : assert arg2 == "ERROR" ; toldError = true
 //@   on store task.Task.status : assert value == INACTIVE ; inactive = true
 //@   ensures toldError && inactive
+
+// ---------------------------------------------------------------------------------------------------------
+// C18: the framework identity survives a restart (loaded before the scheduler is created, stored whenever Mesos assigns
+// one), and every SUBSCRIBED event triggers an implicit reconciliation.
+//@ func NewManager(shutdown func(), internalEventCh chan<- event.Event) (taskman *Manager, err error)
+//@   property C18
+//@   ghostvar fidRead bool = false
+//@   ghostvar fidErr bool = false
+//@   ghostvar fidSet bool = false
+//@   ghostvar sched bool = false
+//@   on aftercall .GetRuntimeEntry : assert arg0 == "aliecs" && arg1 == "mesos_fid" && !sched ; fidRead = true ; fidErr = (result1 != nil)
+//@   on call store.SetOrPanic : assert fidRead && !fidErr && !sched ; fidSet = true
+//@   on call NewScheduler : assert fidRead && (fidErr || fidSet) ; sched = true
+//@   ensures err == nil ==> sched
+
+//@ closure NewManager #1
+//@   property C18
+//@   ghostvar stored bool = false
+//@   on call .SetRuntimeEntry : assert arg0 == "aliecs" && arg1 == "mesos_fid" && arg2 == v ; stored = true
+//@   ensures stored
+
+//@ func (state *schedulerState) buildEventHandler(fidStore store.Singleton) (h events.Handler)
+//@   property C18
+//@   ghostvar recon bool = false
+//@   ghostvar track bool = false
+//@   on call (*schedulerState).reconciliationCall : recon = true
+//@   on call controller.TrackSubscription : assert arg0 == fidStore ; track = true
+//@   ensures recon && track
+
+//@ closure (*schedulerState).reconciliationCall #1
+//@   property C18
+//@   ghostvar implicit bool = false
+//@   ghostvar sent bool = false
+//@   on call calls.ReconcileTasks : assert len(arg0) == 0 ; implicit = true
+//@   on call calls.CallNoData : assert implicit ; sent = true
+//@   ensures sent
